@@ -64,9 +64,10 @@ Definition split_k1 (sidx : list (list Z)) (label : Z) (k : fds) : kerr + fds :=
                 (fun o c a b j => fd k (o / ns) c a (zfun2 sidx (o mod ns) b) j)
                 (tbad k)
                 (fun m o a b j => ft k m (o / ns) a (zfun2 sidx (o mod ns) b) j)
-                (* the new label tensor is repeat(linspace(0, ns-1), 'other -> other k2 k1'): its first axis is ns, NOT nO*ns *)
-                (fun r => if r =? label then (ns, n2 k, per) else let '(_, x2, _) := ish k r in (nO k * ns, x2, per))
-                (fun r o a b => if r =? label then o else fi k r (o / ns) a (zfun2 sidx (o mod ns) b))
+                (* the new label tensor is repeat(linspace(0, ns-1), 'other_split -> (other other_split) k2 k1', other = nO) (repair of KF-04;
+                   before it was 'other -> other k2 k1' with first axis ns, not nO*ns) *)
+                (fun r => if r =? label then (nO k * ns, n2 k, per) else let '(_, x2, _) := ish k r in (nO k * ns, x2, per))
+                (fun r o a b => if r =? label then o mod ns else fi k r (o / ns) a (zfun2 sidx (o mod ns) b))
                 (set_nth (Z.to_nat (label - 1)) ns (lims k)) (encx k) (reconx k)).
 
 Definition split_k2 (sidx : list (list Z)) (label : Z) (k : fds) : kerr + fds :=
@@ -79,8 +80,8 @@ Definition split_k2 (sidx : list (list Z)) (label : Z) (k : fds) : kerr + fds :=
                 (fun o c a b j => fd k (o / ns) c (zfun2 sidx (o mod ns) a) b j)
                 (tbad k)
                 (fun m o a b j => ft k m (o / ns) (zfun2 sidx (o mod ns) a) b j)
-                (fun r => if r =? label then (ns, per, n1 k) else let '(_, _, x1) := ish k r in (nO k * ns, per, x1))
-                (fun r o a b => if r =? label then o else fi k r (o / ns) (zfun2 sidx (o mod ns) a) b)
+                (fun r => if r =? label then (nO k * ns, per, n1 k) else let '(_, _, x1) := ish k r in (nO k * ns, per, x1))
+                (fun r o a b => if r =? label then o mod ns else fi k r (o / ns) (zfun2 sidx (o mod ns) a) b)
                 (set_nth (Z.to_nat (label - 1)) ns (lims k)) (encx k) (reconx k)).
 
 (* ---- select_other_subset --------------------------------------------------------------------------------------------------- *)
